@@ -36,6 +36,9 @@ type Prop struct {
 	ChunkTimeout time.Duration
 	// Chunk overrides the chunk size.
 	Chunk func(tier string, n int) int
+	// Heavy marks cases that take seconds each: every one becomes a chunk of
+	// its own so that they run side by side instead of one after another.
+	Heavy func(tier string, idx int) bool
 	// Post lets the supervisor add evidence keys or cross-worker checks.
 	Post func(a *Agg)
 	// Exhaustive reports whether the tier enumerates a finite space fully.
@@ -203,12 +206,27 @@ func Supervise(p *Prop, tier string, seed int64) int {
 		csize, nw = n, 1
 	}
 	var queue []chunk
-	for f := 0; f < n; f += csize {
+	for f := 0; f < n; {
+		if p.Heavy != nil && !p.SingleProcess && p.Heavy(tier, f) {
+			// heavy cases first in the queue: the long poles start at once
+			queue = append([]chunk{{f, f + 1}}, queue...)
+			f++
+			continue
+		}
 		t := f + csize
 		if t > n {
 			t = n
 		}
+		if p.Heavy != nil && !p.SingleProcess {
+			for k := f + 1; k < t; k++ {
+				if p.Heavy(tier, k) {
+					t = k
+					break
+				}
+			}
+		}
 		queue = append(queue, chunk{f, t})
+		f = t
 	}
 	var qmu sync.Mutex
 	pop := func() (chunk, bool) {
